@@ -99,6 +99,22 @@ let pres_str = function
   | PDone (ipn, v4, pl) -> Printf.sprintf "done:%s:%s:n=%d:d=%s" (s_of_n ipn) (if v4 then "4" else "6") (List.length pl) (datastr pl)
   | PErr v -> "err:" ^ verdict_str v
 
+(* retain predicates on the timestamp: the same table as in harness/src/bin/c11.rs *)
+let retain_pred (kind : string) (arg : int) : int -> bool =
+  match kind with
+  | "ge" -> (fun t -> arg <= t)
+  | "lt" -> (fun t -> t < arg)
+  | "ne" -> (fun t -> t <> arg)
+  | "eq" -> (fun t -> t = arg)
+  | "mod" -> (fun t -> t mod 2 = arg land 1)
+  | "all" -> (fun _ -> true)
+  | "none" -> (fun _ -> false)
+  | _ -> failwith "retain predicate"
+
+let stats_str (p : pool) : string =
+  let ((a, d), s) = stats p in
+  Printf.sprintf "%s,%s,%s" (s_of_n a) (s_of_n d) (s_of_n s)
+
 let run_pool (args : string list) : string =
   match args with
   | ns :: rest ->
@@ -117,7 +133,7 @@ let run_pool (args : string list) : string =
     let held = ref [] and sheld = ref [] in
     let mout = ref [] and sout = ref [] in
     List.iter (fun o ->
-        match colon o with
+        (match colon o with
         | ("p" | "q") as kind :: sid :: fo :: mf :: ts :: tl ->
           let data = if kind = "p" then bytes_of_hex (List.hd tl)
             else pattern (int_of_string (List.hd tl)) (int_of_string (List.nth tl 1)) in
@@ -139,12 +155,31 @@ let run_pool (args : string list) : string =
            | pl :: tl -> held := tl; p := return_buf !p pl; mout := "ret1" :: !mout
            | [] -> mout := "ret0" :: !mout);
           if with_spec then sout := "-" :: !sout
+        | ["rf"; h] ->
+          (* a vector the pool never handed out *)
+          p := return_buf !p (List.map (fun x -> Some x) (bytes_of_hex h));
+          mout := "retf" :: !mout;
+          if with_spec then sout := "-" :: !sout
         | ["t"; cutoff] ->
+          (* Model.retain: the cutoff instance (C11_retain_instance) *)
           let c = n_of_int (int_of_string cutoff) in
           p := retain !p c;
           mout := "retain" :: !mout;
           if with_spec then begin sp := spec_retain !sp c; sout := "-" :: !sout end
-        | _ -> failwith ("pool op " ^ o)) ops;
+        | ["t"; kind; arg] ->
+          let f = retain_pred kind (int_of_string arg) in
+          p := retain_f !p (fun _ t -> f (int_of_n t));
+          mout := "retain" :: !mout;
+          if with_spec then begin sp := spec_retain_f !sp (fun _ t -> f (int_of_n t)); sout := "-" :: !sout end
+        | _ -> failwith ("pool op " ^ o));
+        (* the numbers of verif_stats after every operation *)
+        (match !mout with
+         | x :: tl -> mout := (x ^ " stats=" ^ stats_str !p) :: tl
+         | [] -> ());
+        if with_spec then
+          (match !sout with
+           | x :: tl -> sout := (x ^ " act=" ^ string_of_int (List.length !sp)) :: tl
+           | [] -> ())) ops;
     ignore sheld;
     String.concat " ; " (List.rev !mout) ^ " | " ^ (if with_spec then String.concat " ; " (List.rev !sout) else "-")
   | _ -> failwith "pool case"
